@@ -24,7 +24,7 @@ FIFO content, every arrival script) — by simultaneous induction over the mutua
 (`NrfProofs/C07Write.lean: openAll`), never by enumeration.  They are about calls that *return*
 (`.ok`): a call that raises is C15's subject.
 
-**Open and closed system.**  The hypothesis `Quiet s` (`NrfProofs/C07Net.lean`) on the state a call
+**Open and closed system.**  The hypothesis `Quiet7 s` (`NrfProofs/C07Net.lean`) on the state a call
 starts in is: the system is open (`closed = false`: the other nodes do not run inside the call;
 their traffic is in the RX FIFOs / arrival scripts / fault lists, all universally quantified), **or**
 it is closed (at every poll of the running node every other node that has received something runs
@@ -35,7 +35,7 @@ the theorems are about **the node whose call returns**: the frame theorem
 other nodes do meanwhile — every fuel, every outcome, exceptions included — the caller's `Node`
 record (up to its saved clock) and every configuration register of the caller's radio are left
 alone.  Since the statements hold for every state, they also apply to each *nested* `update()`
-of another node that returns (the state after the context switch satisfies `Quiet` again).  What
+of another node that returns (the state after the context switch satisfies `Quiet7` again).  What
 they do not say: a node whose nested `update()` **raises** (in the model also: runs out of fuel)
 inside another node's call is left as the exception left it — the exception is swallowed by the
 scheduler, so no call of that node "returns"; excluding it is C15 for the closed system, which
@@ -91,11 +91,11 @@ theorem C07_begin (s : NetState) (ds : List Nat) (hn : IsNode ds) (hcur : s.cur 
     (hw : s.drv.Wf) (hb : Base s.drv.d s.drv.cfg) (hc : CfgBytes s.node.cfg) :
     ∃ s', nexec (begin (val ds)) s = (.ok (), s') ∧ NodeListens s' ∧ Listening s'.node (radioOf s') ∧
       beginAddr (val ds) = some s'.node.a ∧ s'.node.a.addr = val ds ∧ s'.node.a.netLvl = ds.length ∧
-      s'.node.cfg = s.node.cfg ∧ s'.cur = s.cur ∧ s'.closed = s.closed ∧ (Quiet s → Quiet s') := by
+      s'.node.cfg = s.node.cfg ∧ s'.cur = s.cur ∧ s'.closed = s.closed ∧ (Quiet7 s → Quiet7 s') := by
   have := n_begin (E := noErr)
     (Q := fun _ s' => NodeListens s' ∧ Listening s'.node (radioOf s') ∧ beginAddr (val ds) = some s'.node.a
       ∧ s'.node.a.addr = val ds ∧ s'.node.a.netLvl = ds.length
-      ∧ s'.node.cfg = s.node.cfg ∧ s'.cur = s.cur ∧ s'.closed = s.closed ∧ (Quiet s → Quiet s'))
+      ∧ s'.node.cfg = s.node.cfg ∧ s'.cur = s.cur ∧ s'.closed = s.closed ∧ (Quiet7 s → Quiet7 s'))
     hcur hw hb (C07_good_of hc) hn
     (by
       intro s' h1 h2 h3
@@ -130,7 +130,7 @@ def demo2 : NetState :=
     w := { radios := [{ dynpd := 0x3F, feature := 5 }, { dynpd := 0x3F, feature := 5 }], busyUntil := [0, 0] },
     closed := true }
 
-theorem C07_demo2_quiet : Quiet demo2 ∧ demo2.closed = true := by
+theorem C07_demo2_quiet : Quiet7 demo2 ∧ demo2.closed = true := by
   refine ⟨Or.inr ⟨⟨by decide, by decide⟩, ?_⟩, rfl⟩
   intro a b ha hb hab
   have ha' : a < 2 := ha
@@ -138,8 +138,8 @@ theorem C07_demo2_quiet : Quiet demo2 ∧ demo2.closed = true := by
   have : (a = 0 ∧ b = 1) ∨ (a = 1 ∧ b = 0) := by omega
   rcases this with ⟨rfl, rfl⟩ | ⟨rfl, rfl⟩ <;> decide
 
-/-- non-vacuity for the closed system: a listening node in a closed session that satisfies `Quiet` -/
-theorem C07_demo2_listens : ∃ s, NodeListens s ∧ s.closed = true ∧ Quiet s ∧ CfgBytes s.node.cfg := by
+/-- non-vacuity for the closed system: a listening node in a closed session that satisfies `Quiet7` -/
+theorem C07_demo2_listens : ∃ s, NodeListens s ∧ s.closed = true ∧ Quiet7 s ∧ CfgBytes s.node.cfg := by
   have hb : Base demo2.drv.d demo2.drv.cfg := by constructor <;> decide
   have hw : demo2.drv.Wf := by show demo2.drv.d.rid < demo2.drv.w.radios.length; decide
   have hc : CfgBytes demo2.node.cfg := by unfold CfgBytes; decide
@@ -148,14 +148,14 @@ theorem C07_demo2_listens : ∃ s, NodeListens s ∧ s.closed = true ∧ Quiet s
 
 /-! ## every exit of `_write` re-establishes it -/
 
-/-- **`_write(write_direct, send_type)`**, open or closed system (`Quiet`): for EVERY fuel, every argument, every world
+/-- **`_write(write_direct, send_type)`**, open or closed system (`Quiet7`): for EVERY fuel, every argument, every world
     (every fault list — each `send`/`resend` succeeds or fails arbitrarily —, every other radio,
     every FIFO content, every script of arrivals): if the node listens before and the call returns,
     the node listens after — whichever exit was taken (plain, after emitting a NETWORK_ACK, after
     the NETWORK_ACK wait incl. its timeout and all the traffic handled and forwarded while waiting,
     loop-back enqueue, multicast, every fragment-abort point, every `_tx_standby` retry). Address
     attributes, configuration and identity of the node are unchanged. -/
-theorem C07_write_exit (f wd st : Nat) (s s' : NetState) (r : Bool) (hopen : Quiet s)
+theorem C07_write_exit (f wd st : Nat) (s s' : NetState) (r : Bool) (hopen : Quiet7 s)
     (h : NodeListens s) (hret : nexec (nodeWrite f wd st) s = (.ok r, s')) :
     NodeListens s' ∧ s'.node.a = s.node.a ∧ s'.node.cfg = s.node.cfg ∧ s'.cur = s.cur := by
   obtain ⟨p0, a1, aN, ha, hl⟩ := h
@@ -164,7 +164,7 @@ theorem C07_write_exit (f wd st : Nat) (s s' : NetState) (r : Bool) (hopen : Qui
   exact ⟨⟨p0, a1, aN, addrOf_frame h'.2 ha, h'.1⟩, h'.2.a, h'.2.cfg, h'.2.cur⟩
 
 /-- … in terms of the specification, for the nodes of the tree -/
-theorem C07_write_exit_listening (f wd st : Nat) (s s' : NetState) (r : Bool) (hopen : Quiet s)
+theorem C07_write_exit_listening (f wd st : Nat) (s s' : NetState) (r : Bool) (hopen : Quiet7 s)
     (h : NodeListens s) (hc : CfgBytes s.node.cfg) (ds : List Nat) (hn : IsNode ds)
     (ha : s.node.a.addr = val ds) (hl : s.node.a.netLvl ≤ 4)
     (hret : nexec (nodeWrite f wd st) s = (.ok r, s')) : Listening s'.node (radioOf s') := by
@@ -174,7 +174,7 @@ theorem C07_write_exit_listening (f wd st : Nat) (s s' : NetState) (r : Bool) (h
 /-- `_write` entered in the middle of a transmission (radio in TX mode, pipe 0 on the TX address,
     EN_AA = 0x3F or 0x3E — any state in which only the `_begin` configuration `Mid` holds) still
     ends listening: the exits do not depend on how `_write` was entered. -/
-theorem C07_write_exit_from_tx (f wd st : Nat) (s s' : NetState) (r : Bool) (hopen : Quiet s)
+theorem C07_write_exit_from_tx (f wd st : Nat) (s s' : NetState) (r : Bool) (hopen : Quiet7 s)
     (p0 a1 : Bytes) (aN : List Nat) (v : Nat) (h : s.MidS p0 a1 aN v)
     (hret : nexec (nodeWrite f wd st) s = (.ok r, s')) : s'.LstS p0 a1 aN 0x3E := by
   have := (openAll p0 a1 aN f).nodeWrite v wd st s s hopen ⟨h, NFr.refl s⟩
@@ -184,7 +184,7 @@ example : ∃ s, NodeListens s ∧ s.closed = false := by
   obtain ⟨s, h1, h2, _⟩ := C07_demo_listens; exact ⟨s, h1, h2⟩
 
 /-- the frame handlers and the loop of `_net_update`, the NETWORK_ACK wait: every fuel -/
-theorem C07_net_update (f rv : Nat) (s s' : NetState) (r : Nat) (hopen : Quiet s)
+theorem C07_net_update (f rv : Nat) (s s' : NetState) (r : Nat) (hopen : Quiet7 s)
     (h : NodeListens s) (hret : nexec (netUpdate f rv) s = (.ok r, s')) :
     NodeListens s' ∧ s'.node.a = s.node.a ∧ s'.node.cfg = s.node.cfg := by
   obtain ⟨p0, a1, aN, ha, hl⟩ := h
@@ -262,15 +262,15 @@ theorem C07_faults_same (ds : DrvState) (l : List Outcome) (hw : ds.Wf) :
     ce := fun _ => rfl }
 
 /-- **Every entry point** (network and mesh, node and master) and every move of the environment,
-    open or closed system (`Quiet`), every argument, every world: if the node listens before and the call returns, the
+    open or closed system (`Quiet7`), every argument, every world: if the node listens before and the call returns, the
     node listens after; its configuration and identity are unchanged. -/
-theorem C07_api (c : Call) (s s' : NetState) (hopen : Quiet s) (h : NodeListens s)
+theorem C07_api (c : Call) (s s' : NetState) (hopen : Quiet7 s) (h : NodeListens s)
     (hc : CfgBytes s.node.cfg) (hadm : c.Admissible) (hret : nexec c.run s = (.ok (), s')) :
-    NodeListens s' ∧ s'.node.cfg = s.node.cfg ∧ s'.closed = s.closed ∧ s'.cur = s.cur ∧ Quiet s' := by
+    NodeListens s' ∧ s'.node.cfg = s.node.cfg ∧ s'.closed = s.closed ∧ s'.cur = s.cur ∧ Quiet7 s' := by
   have hnl : NL s s := ⟨h, NFr0.refl s⟩
   have hg := C07_good_of hc
   have fin : wp anyErr c.run (fun _ s' => NL s s') s → NodeListens s' ∧ s'.node.cfg = s.node.cfg ∧
-      s'.closed = s.closed ∧ s'.cur = s.cur ∧ Quiet s' := by
+      s'.closed = s.closed ∧ s'.cur = s.cur ∧ Quiet7 s' := by
     intro hw
     have := (wp_any_iff _ _ _).1 hw () s' hret
     exact ⟨this.1, this.2.cfg, this.2.closed, this.2.cur, hopen.nfr0 this.2⟩
@@ -319,10 +319,10 @@ theorem C07_api (c : Call) (s s' : NetState) (hopen : Quiet s) (h : NodeListens 
     obtain ⟨p0, a1, aN, ha, hl⟩ := h
     exact ⟨⟨p0, a1, aN, ha, hl.world _ (inject_same s.drv s.node.rf.rid pipe data hl.2.1)⟩, (NFr.world s _).to0⟩
 
-/-- non-vacuity of `C07_api` in both systems: an open session (`Quiet` by its first alternative) and
+/-- non-vacuity of `C07_api` in both systems: an open session (`Quiet7` by its first alternative) and
     a closed one (second alternative) in which the node listens -/
-example : (∃ s, NodeListens s ∧ Quiet s ∧ s.closed = false ∧ CfgBytes s.node.cfg) ∧
-    (∃ s, NodeListens s ∧ Quiet s ∧ s.closed = true ∧ CfgBytes s.node.cfg) := by
+example : (∃ s, NodeListens s ∧ Quiet7 s ∧ s.closed = false ∧ CfgBytes s.node.cfg) ∧
+    (∃ s, NodeListens s ∧ Quiet7 s ∧ s.closed = true ∧ CfgBytes s.node.cfg) := by
   obtain ⟨s, h1, h2, h3, _⟩ := C07_demo_listens
   obtain ⟨s2, g1, g2, g3, g4⟩ := C07_demo2_listens
   exact ⟨⟨s, h1, Or.inl h2, h2, h3⟩, ⟨s2, g1, g3, g2, g4⟩⟩
@@ -335,7 +335,7 @@ inductive Runs : List Call → NetState → NetState → Prop
 
 /-- **Any sequence** of entry points, arrivals, fault patterns (induction over the history): the
     node listens after every one of them. -/
-theorem C07_history (cs : List Call) (s s' : NetState) (hopen : Quiet s) (h : NodeListens s)
+theorem C07_history (cs : List Call) (s s' : NetState) (hopen : Quiet7 s) (h : NodeListens s)
     (hc : CfgBytes s.node.cfg) (hadm : ∀ c ∈ cs, c.Admissible) (hr : Runs cs s s') :
     NodeListens s' ∧ s'.node.cfg = s.node.cfg := by
   induction hr with
@@ -347,7 +347,7 @@ theorem C07_history (cs : List Call) (s s' : NetState) (hopen : Quiet s) (h : No
     exact ⟨x, y.trans b⟩
 
 /-- … in terms of the specification, whenever the node is (still / again) at an address of the tree -/
-theorem C07_history_listening (cs : List Call) (s s' : NetState) (hopen : Quiet s)
+theorem C07_history_listening (cs : List Call) (s s' : NetState) (hopen : Quiet7 s)
     (h : NodeListens s) (hc : CfgBytes s.node.cfg) (hadm : ∀ c ∈ cs, c.Admissible)
     (hr : Runs cs s s') (ds : List Nat) (hn : IsNode ds) (ha : s'.node.a.addr = val ds)
     (hl : s'.node.a.netLvl ≤ 4) : Listening s'.node (radioOf s') := by
